@@ -234,7 +234,9 @@ class Oracle:
                 d = os.path.dirname(os.path.join(self.cwd, op))
                 self.cache[(kind, prim, op)] = op != "" and os.path.isdir(d) and not os.path.isdir(os.path.join(self.cwd, op))
             elif kind == "date":
-                self.cache[(kind, prim, op)] = True if op in POOLS["date"][0] else False if op in POOLS["date"][1] or not any(ch.isdigit() for ch in op) else None
+                # only the listed spellings are decided here: the date grammar (words such as "yesterday", the empty string = today) belongs to the
+                # date parser and the property does not fix it; any other operand makes the vector unusable as a rejection witness
+                self.cache[(kind, prim, op)] = True if op in POOLS["date"][0] else False if op in POOLS["date"][1] else None
         if lines:
             out = fw.run_lines(fw.FUV, lines)
             acc = {}
